@@ -36,9 +36,11 @@ NP == Len(Pool)
 Words(n)  == UNION { [1..k -> 1..Len(Chars)] : k \in 0..n }
 PathOf(w) == <<"/">> \o [i \in 1..Len(w) |-> Chars[w[i]]]
 \* only normalised request paths: no trailing "/" (except root), no "//" at the start
-NormalForm(p) == /\ (Len(p) > 1 => p[Len(p)] # "/")
+NormalForm(p) == /\ p[1] = "/" /\ p[Len(p)] \notin {"SP", "TAB"}
+                 /\ (Len(p) > 1 => p[Len(p)] # "/")
                  /\ (Len(p) > 1 => p[2] # "/")
-PathSeq == SetToSeq({ p \in { PathOf(w) : w \in Words(MaxLen - 1) } : NormalForm(p) })
+\* ExtraPaths (PoolDef): additional, possibly longer or non-normalised, paths of an instance
+PathSeq == SetToSeq({ p \in { PathOf(w) : w \in Words(MaxLen - 1) } : NormalForm(p) } \cup ExtraPaths)
 NPaths  == Len(PathSeq)
 
 \* memoised match matrix (constant level: evaluated once by TLC)
